@@ -165,7 +165,7 @@ func genExtension(g *prng.R, idx int) extSpec {
 	{
 		// names are arbitrary: among them words that mean something to the
 		// go tool when a file name ends in them (_test.go, _GOOS.go, _GOARCH.go)
-		es.Types[0] = []string{"Test", "Windows", "Js", "Linux", "Arm64", "Wasm"}[idx%6]
+		es.Types[0] = []string{"Unit_test", "Test", "Windows", "Js", "Linux", "Arm64", "Wasm"}[idx%7]
 	}
 	ref := func(name string) map[string]interface{} {
 		for _, t := range es.Types {
@@ -324,7 +324,7 @@ func genExtension(g *prng.R, idx int) extSpec {
 	for i := 0; i < nP; i++ {
 		name := fmt.Sprintf("vx%c%dProp", strings.ToLower(letters)[(idx+i)%len(letters)], i)
 		if i == 0 {
-			name = []string{"ios", "test", "amd64", "android", "plan9", "s390x"}[idx%6]
+			name = []string{"runs_on_windows_arm64", "ios", "test", "amd64", "android", "plan9", "s390x", "speed_test"}[idx%8]
 		}
 		es.Props = append(es.Props, name)
 		typ := []interface{}{"rdf:Property"}
